@@ -653,6 +653,10 @@ def run(ctx, report):
         else:
             R8.ok(inst, sample='%s: no entry grows with the constant' % label)
 
+    # -------------------------------------------------------------- D9 every site that selects the mandatory prefix selects the same one
+    R9 = report.rule('C10.D9', 'the decoder, the undefined-form test and the renderer select the same mandatory prefix (66/F2/F3) from a prefix list, whatever else it holds', floor=30)
+    mandatory_prefix_rule(ctx, R9, X)
+
     # -------------------------------------------------------------- D4 truncation / streams / progress
     R4 = report.rule('C10.D4', 'truncated input is reported as absent; reads are bounds-checked; loops make progress', floor=12)
     if not tries or 'IOError' not in caught:
@@ -949,6 +953,83 @@ def from_att_total(ctx, R, arch):
                     where(arch, arch.func('mnemo_from_att')), witness="asm_att(%r ...) -> %s" % (nm, exc))
 
 
+def mandatory_prefix_rule(ctx, R, X):
+    """_dis accepts an MMX/SSE opcode under the mandatory prefix it selects from the prefixes read, mmx_undefined_form rejects (opcode, prefix) pairs with
+    its own selection, and __str__ names the instruction (mmx_set_suffix) with a third one.  When they disagree on a list holding two of 66/F2/F3 the
+    decoder returns an instruction the renderer names `..INVALID..` and the AT&T rendering raises.  The three selections are evaluated from the source on
+    every ordered pair of mandatory prefixes, alone and with a segment / lock prefix between or around them."""
+    from ..consteval import Evaluator as _Ev, NotConst as _NC, PyRaise as _PR
+    arch = X.arch
+    mp = _Ev({}).ev(arch.assign_value('mmx_prefixes'))
+    mand = [x for x in mp if x]
+    lists = [[a] for a in mand] + [[a, b] for a in mand for b in mand if a != b]
+    lists = lists + [[0x26] + l for l in lists] + [l + [0xF0] for l in lists] + [[l[0], 0x64] + l[1:] for l in lists if len(l) == 2] + [[], [0x2E]]
+
+    def sel_str(prefix):
+        fn = arch.method('x86_mn', '__str__')
+        node = None
+        for n in fn.body:
+            if isinstance(n, ast.If) and u(n.test) == 'self.m.modifs[mmx]':
+                node = n
+        if node is None:
+            raise AnalysisError('x86_mn.__str__: the mandatory-prefix block (if self.m.modifs[mmx]) was not found')
+        stmts = []
+        for st in node.body:
+            stmts.append(st)
+            if isinstance(st, ast.Assign) and u(st.targets[0]) == 'p' and 'mmx_prefixes.index' in u(st.value):
+                break
+        else:
+            raise AnalysisError('x86_mn.__str__: p = mmx_prefixes.index(..) not found')
+        loc = {'prefix': list(prefix), 'mmx_prefixes': list(mp)}
+        _Ev({}).exec_stmts(stmts, loc)
+        return mp[loc['p']], loc['prefix']
+
+    def sel_undef(prefix):
+        fn = arch.func('mmx_undefined_form')
+        st = [x for x in fn.body if isinstance(x, ast.Assign) and u(x.targets[0]) == 'p']
+        if not st:
+            raise AnalysisError('mmx_undefined_form: p = .. not found')
+        loc = {'prefix': list(prefix), 'mmx_prefixes': list(mp)}
+        _Ev({}).exec_stmts(st[:1], loc)
+        return loc['p']
+
+    def sel_dis():
+        fn = arch.method('x86_mn', '_dis')
+        asg = [n for n in ast.walk(fn) if isinstance(n, ast.Assign) and u(n.targets[0]) == 'sse_prefix']
+        calls = [n for n in ast.walk(fn) if isinstance(n, ast.Call) and u(n.func) == 'mmx_prefixes.index' and 'sse_prefix' in u(n)]
+        if len(asg) != 1 or not calls:
+            raise AnalysisError('x86_mn._dis: the selection of the mandatory prefix (sse_prefix, mmx_prefixes.index) was not found')
+        return asg[0], calls[0]
+    d_asg, d_call = sel_dis()
+    for lst in lists:
+        inst = 'mandatory prefix of [%s]' % ' '.join('%02x' % b for b in lst)
+        try:
+            loc = {'read_prefix': list(lst), 'mmx_prefixes': list(mp)}
+            _Ev({}).exec_stmts([d_asg], loc)
+            p_dis = mp[_Ev({}).ev(d_call, loc)]
+            p_und = sel_undef(loc['sse_prefix'])
+            p_str, rest = sel_str(lst)
+        except _PR as e:
+            R.violation(inst, 'mandatory-prefix:raises:%s' % e.exc_name, 'selecting the mandatory prefix of %s raises %s' % (inst, e.exc_name), where(arch, d_asg))
+            continue
+        except _NC as e:
+            raise AnalysisError('the mandatory-prefix selection is outside the evaluable subset: %s' % e)
+        want_rest = list(lst)
+        if p_dis in want_rest:
+            idx = len(want_rest) - 1 - want_rest[::-1].index(p_dis)
+        problems = []
+        if not (p_dis == p_und == p_str):
+            problems.append('_dis selects %02x, mmx_undefined_form %02x, __str__ %02x' % (p_dis, p_und, p_str))
+        if p_str and rest.count(p_str) != lst.count(p_str) - 1:
+            problems.append('__str__ does not remove exactly one %02x from the prefixes it still prints' % p_str)
+        if problems:
+            R.violation(inst, 'mandatory-prefix:disagree:%s' % '-'.join('%02x' % b for b in lst if b in mand), '%s: %s; the decoder accepts an instruction the renderer names after another '
+                        'prefix (`..INVALID..`, which the AT&T rendering refuses with ValueError)' % (inst, '; '.join(problems)), where(arch, arch.method('x86_mn', '__str__')),
+                        witness='f2 f3 0f 6f c1 decodes as movdqu (F3); rendered with the first prefix it is movINVALID')
+        else:
+            R.ok(inst, nontrivial=(len([b for b in lst if b in mand]) > 1))
+
+
 MUTANTS = [
     ('x87-size-keyerror', 'miasmx/arch/ia32_arch.py', "x86_afs.f32:x86_afs.f32, x86_afs.f64:x86_afs.f64}.get(size)", "x86_afs.f32:x86_afs.f32, x86_afs.f64:x86_afs.f64}[size]", 'C10.D3'),
     ('dis-failure-no-rewind', 'miasmx/arch/ia32_arch.py', "            if init_offset is not None:\n                # nothing was decoded: leave the stream where it was\n                op.offset = init_offset\n", "", 'C10.D4'),
@@ -969,4 +1050,6 @@ MUTANTS = [
     ('imm-typing-x87-key', 'miasmx/arch/ia32_arch.py', "        elif len(size) == 1 and list(size)[0] in tab_size2int:", "        elif len(size) == 1:", 'C10.D7'),
     ('scale-unbounded', 'miasmx/core/parse_ad.py', "    if isinstance(v, str) and n*len(v) > 9*len(x86_afs.u32):", "    if False:", 'C10.D8'),
     ('scale-per-factor', 'miasmx/core/parse_ad.py', "    if isinstance(v, str) and n*len(v) > 9*len(x86_afs.u32):", "    if isinstance(v, str) and n > 9:", 'C10.D8'),
+    ('str-first-mandatory-prefix', 'miasmx/arch/ia32_arch.py', "                p = sse[-1]\n                prefix.remove(p)", "                p = sse[0]\n                prefix.remove(p)", 'C10.D9'),
+    ('undef-first-mandatory-prefix', 'miasmx/arch/ia32_arch.py', "    p = ([0]+[_ for _ in prefix if _ in mmx_prefixes[1:]])[-1]", "    p = ([_ for _ in prefix if _ in mmx_prefixes[1:]]+[0])[0]", 'C10.D9'),
 ]
